@@ -322,6 +322,9 @@ def applyFn : Nat → Val → List Val → St → R Val
       if name = "trace" then
         let v := args.headD .nil
         .ok v { s with trace := s.trace ++ [pr s.heap v] }
+      else if name = "probe" then
+        -- host function of channel `tail` (C09); the reference has no stacks: only the site is recorded
+        .ok .nil { s with trace := s.trace ++ ["P" ++ pr s.heap (args.headD .nil)] }
       else if name = "force" then
         (match args with
          | [.lazy id] => force fuel id s
